@@ -253,7 +253,10 @@ def C08_5(ctx, facts):
     f = facts.unit(facts.method("rewind::Rewind", "Read", "poll_read"))
     ctx.touched(f)
     mins = f.calls("std::cmp::min", "core::cmp::min")
-    puts = f.calls("rewind::put_slice")
+    # the two private cursor helpers (today `remaining` and `put_slice`) are spliced into the unit: the copy is the raw
+    # copy_from_nonoverlapping + cursor.advance pair, the free space is cursor.as_mut().len()
+    puts = [c for c in f.calls() if c.matches(r"copy_from_nonoverlapping$|copy_nonoverlapping$|copy_from_slice$")]
+    cadv = [c for c in f.calls() if c.matches(r"ReadBufCursor.*::advance$")]
     advs = [c for c in f.calls() if norm(c.name).endswith("::advance") and "Bytes" in (c.t.get("argtys") or [""])[0]]
     inner = f.calls("hyper::rt::Read::poll_read")
     ctx.floor("Rewind::poll_read|min", len(mins), 1, "n = min(..)")
@@ -264,15 +267,22 @@ def C08_5(ctx, facts):
         ra = f.roots(c.args[0])
         rb_ = f.roots(c.args[1])
         ok = any(r.kind == "call" and r.site.matches(r"Bytes.*::len$|bytes::Bytes::len") for r in ra | rb_) and \
-            any(r.kind == "call" and r.site.is_("rewind::remaining") for r in ra | rb_)
+            any(r.kind == "call" and r.site.matches(r"ReadBufCursor.*::as_mut$") for r in ra | rb_)
         ctx.check(ok, "Rewind::poll_read|n-is-min", "n = min(prefix.len(), remaining(buf))", "n is computed from %s" % sorted(map(repr, sig(ra | rb_))), c.where())
     mb = {c.bb for c in mins}
     for c in puts:
-        # slice = &prefix[..n]
-        site = f.call_defining(op_place(c.args[1])["l"]) if op_place(c.args[1]) else None
+        # source = prefix[..n] (n the minimum above), amount = that slice's length, destination = the caller's cursor
+        rr = set()
+        for a_ in c.args:
+            rr |= f.roots(a_, through_calls=True)
+        ok = any(r.kind == "call" and r.site.bb in mb for r in rr) and any(r.kind == "call" and r.site.matches(r"Index.*RangeTo.*index$|index$") for r in rr) and \
+            any(r.kind == "call" and r.site.matches(r"ReadBufCursor.*::as_mut$") for r in rr)
+        ctx.check(ok, "Rewind::poll_read|copy-n", "exactly prefix[..n] is copied into the caller's cursor", "copied slice roots %s" % sorted(map(repr, sig(rr))), c.where())
+    ctx.floor("Rewind::poll_read|cursor-advance", len(cadv), 1, "advance of the caller's cursor by the copied amount")
+    for c in cadv:
         rr = f.roots(c.args[1], through_calls=True)
-        ok = any(r.kind == "call" and r.site.bb in mb for r in rr) and any(r.kind == "call" and r.site.matches(r"Index.*RangeTo.*index$|index$") for r in rr)
-        ctx.check(ok, "Rewind::poll_read|copy-n", "exactly prefix[..n] is copied", "copied slice roots %s" % sorted(map(repr, sig(rr))), c.where())
+        ok = any(r.kind == "call" and r.site.bb in mb for r in rr)
+        ctx.check(ok, "Rewind::poll_read|cursor-advance-n", "the caller's cursor is advanced by the number of bytes copied (the length of prefix[..n])", "cursor advance roots %s" % sorted(map(repr, sig(rr))), c.where())
     for c in advs:
         rr = f.roots(c.args[1], through_calls=False)
         ok = any(r.kind == "call" and r.site.bb in mb for r in rr)
